@@ -781,7 +781,7 @@ def run(tier, seed):
     from .. import extra
     from .. import extra as _extra
     _more = [_extra.suite_second_instance_policies(tier, seed)]
-    return list(list(suites) + [extra.suite_policy_reapplied(tier, seed), extra.suite_recipe_validator(tier, seed), extra.suite_config_reload(tier, seed), extra.suite_policy_relaxed(tier, seed)]) + _more
+    return list(list(suites) + [extra.suite_policy_reapplied(tier, seed), extra.suite_recipe_validator(tier, seed), extra.suite_config_reload(tier, seed), extra.suite_policy_relaxed(tier, seed), extra.suite_unloadable_validator(tier, seed)]) + _more
 
 def replay(payload):
     import logging
